@@ -41,6 +41,8 @@ def h_access(n: int, valid1: bool, valid2: bool, vok: bool, s0: int, s1: int, k:
     dt = dt_of(numtype, bo)
     results = []
     valids = [valid1, valid2]
+    held = []        # the caller KEEPS the exception objects of failed accesses (logging, pytest.raises, ..):
+                     # traceback -> frame -> locals must not keep a file or mapping open
 
     def one(i, kind):
         nonlocal ref
@@ -74,6 +76,7 @@ def h_access(n: int, valid1: bool, valid2: bool, vok: bool, s0: int, s1: int, k:
                 err = None
             except Exception as e:
                 v, err = None, e
+                held.append(e)
             if exp_ok:
                 if err is not None:
                     raise Violation(f'{kind}: valid index raised {type(err).__name__}')
@@ -104,6 +107,7 @@ def h_access(n: int, valid1: bool, valid2: bool, vok: bool, s0: int, s1: int, k:
                 err = None
             except Exception as e:
                 err = e
+                held.append(e)
             if exp_ok:
                 if err is not None:
                     raise Violation(f'{kind}: valid assignment raised {type(err).__name__}')
@@ -252,9 +256,13 @@ def _replay_access(cex, d):
         vok = bool(fx['vok'])
         val = 3 if vok else np_.zeros((n + 2,) + atom + (3,))
 
+        held = []
+
         def fds():
+            rp_ = os.path.realpath(p)
             return [x for x in os.listdir('/proc/self/fd')
-                    if os.path.realpath(f'/proc/self/fd/{x}').startswith(p)]
+                    if os.path.realpath(f'/proc/self/fd/{x}').startswith(rp_)] + \
+                   ['map:' + ln.split()[0] for ln in open('/proc/self/maps') if rp_ in ln]
 
         def one(i, kind):
             valid = valids[i]
@@ -273,6 +281,7 @@ def _replay_access(cex, d):
                     got, gerr = a[idx], None
                 except Exception as e:
                     got, gerr = None, type(e)
+                    held.append(e)
                 if werr is not gerr and (werr is None or gerr is None or not issubclass(gerr, werr)):
                     probs.append(f'{kind} a[{idx!r}]: numpy {werr}, darr {gerr}')
                 elif werr is None:
@@ -293,6 +302,7 @@ def _replay_access(cex, d):
                     gerr = None
                 except Exception as e:
                     gerr = type(e)
+                    held.append(e)
                 if (werr is None) != (gerr is None):
                     probs.append(f'{kind} a[{idx!r}]=..: numpy {werr}, darr {gerr}')
                 elif werr is None:
